@@ -160,7 +160,17 @@ def discharge(ob, class_axioms, base_facts, want_model=True) -> Result:
             return Result(ob.oid, "covered", backend, dt, ninst)
         if r == z3.unsat:
             return Result(ob.oid, "vacuous", backend, dt, ninst, reason="hypotheses are contradictory")
-        return Result(ob.oid, "unknown", backend, dt, ninst, reason=str(s.reason_unknown()) if s else "")
+        # a vacuity guard the solvers cannot decide (model construction over sequences + uninterpreted functions):
+        # retry on the ground hypotheses only, then give up without failing anything
+        s3 = z3.Solver()
+        s3.set("timeout", 5000)
+        s3.add(*[h for h in ob.hyps])
+        s3.add(*base_facts)
+        r3 = s3.check()
+        if r3 == z3.unsat:
+            return Result(ob.oid, "vacuous", backend, time.time() - t0, ninst, reason="ground hypotheses are contradictory")
+        return Result(ob.oid, "cover-unknown", backend, time.time() - t0, ninst,
+                      reason="satisfiability of the instantiated hypotheses not decided" + (" (ground part is satisfiable)" if r3 == z3.sat else ""))
     if r == z3.unsat:
         return Result(ob.oid, "proved", backend, dt, ninst)
     if r == z3.sat:
